@@ -60,6 +60,91 @@ def unwind_drops(a, call):
     return dropped, True
 
 
+LOW_POS = {"index", "position"}      # claimed range is [pos, ..): consumers advance it past a slot they moved out
+HIGH_POS = {"index_back"}            # claimed range is [.., pos): shrinks from the back
+
+
+def range_driver(drv):
+    """(Range aggregate, +1 forward / -1 backward) if the driver call folds directly over a `lo..hi` range, else None."""
+    fwd = ("core::iter::Iterator::fold", "core::iter::Iterator::for_each", "core::iter::Iterator::try_fold", "core::iter::Iterator::try_for_each")
+    bwd = ("core::iter::DoubleEndedIterator::rfold", "core::iter::DoubleEndedIterator::try_rfold")
+    if drv.fn not in fwd + bwd or not drv.args:
+        return None
+    r = drv.args[0]
+    if isinstance(r, tuple) and len(r) == 3 and r[0] == "A" and isinstance(r[1], tuple) and r[1][:2] == ("adt", "core::ops::Range") and len(r[2]) == 2 and r[2][0][0] == "I" and r[2][1][0] == "I":
+        return r, (1 if drv.fn in fwd else -1)
+    return None
+
+
+def indexed_traversal(ap, drv, g, info, role, owners):
+    """For a closure with index-addressed slots: list of storage bases (to be matched against the owner's storage) or None with a reason.
+    Requires: the driver folds directly over `lo..hi`; every base upvar points at offset 0 of some storage; for each position upvar that is a
+    field of a tracked owner, [lo, hi) is exactly that owner's claimed range at the driver call and an absolute store `*pos = i + c` has
+    c = 1 on a low position travelling forward, c = 0 on a high position travelling backward (so the slot just moved out is disowned), or - for a
+    builder - c = 1 on its position travelling forward (the slot just written is counted)."""
+    from .absint import State
+    if not info.get("indexed"):
+        return [], ""
+    rd = range_driver(drv)
+    if rd is None:
+        return None, "slots are addressed by an index parameter but the driver %s does not fold directly over a `lo..hi` range" % drv.fn
+    (_r, direction) = rd
+    lo, hi = rd[0][2][0][1], rd[0][2][1][1]
+    st = State(drv.mem, drv.facts)
+    bases = []
+    for (k, depth, ix) in info["indexed"]:
+        op = g["ops"][k] if k < len(g["ops"]) else None
+        if op is None or op[0] != "P" or op[2].t:
+            return None, "base upvar %d is not a tracked pointer: %r" % (k, op)
+        if depth == 2:
+            op = ap.read_cell(st, op[1], (), None)
+            if op is None or op[0] != "P" or op[2].t:
+                return None, "the variable base upvar %d refers to does not hold a tracked pointer" % k
+        bases.append(op[1])
+    for k in info["positions"]:
+        op = g["ops"][k] if k < len(g["ops"]) else None
+        if not (op is not None and op[0] == "P" and op[1][0] == "field" and not op[2].t and len(op[1][2]) == 1):
+            continue
+        obase, fld = op[1][1], op[1][2][0]
+        adt = local_adt(ap, obase[1]) if obase[0] == "local" else None
+        if adt not in owners:
+            continue
+        o = owners[adt]
+        name = o["names"][fld]
+        # claimed range of this owner at the driver call
+        def val(nm):
+            if nm not in o["names"]:
+                return None
+            v = ap.read_cell(st, obase, (o["names"].index(nm),), {"k": "prim", "n": "usize"})
+            return v[1] if v[0] == "I" else None
+        lt = ap.local_ty(obase[1])
+        N = ap.tenv.length([x for x in lt["args"] if x.get("k") != "region"][-1])
+        if "index" in o["names"]:
+            c_lo, c_hi = val("index"), val("index_back")
+        elif role == "builder":
+            c_lo, c_hi = val("position"), N    # slots still to be written
+        else:
+            c_lo, c_hi = val("position"), N
+        if c_lo is None or c_hi is None or not (ap.prove(drv.facts, "Eq", lo, c_lo) and ap.prove(drv.facts, "Eq", hi, c_hi)):
+            return None, "the driver's range [%r, %r) is not the owner's claimed range [%r, %r) at that call" % (lo, hi, c_lo, c_hi)
+        c = info["abs"].get(k)
+        if c is not None:
+            want = None
+            if role == "builder":
+                want = (1, 1) if name == "position" else None
+            elif name in LOW_POS:
+                want = (1, 1)
+            elif name in HIGH_POS:
+                want = (-1, 0)
+            if want is None or (direction, c) != want:
+                return None, "absolute store `*%s = i + %d` while travelling %s does not disown (resp. count) exactly the slot just moved" % (name, c, "forward" if direction == 1 else "backward")
+        else:
+            # relative advance next to index-addressed slots: the direction must still fit the kind of position
+            if (name in LOW_POS and direction != 1) or (name in HIGH_POS and direction != -1):
+                return None, "position %s is advanced while the range is travelled in the other direction" % name
+    return bases, ""
+
+
 def link_closure(ctx, cfg, cb, info, role, rule):
     """Parent-side obligations for an element-moving closure: its positions are fields of tracked owners,
     its slots come from those owners' storage, and each owner is dropped on the unwind path of the call that drives the closure."""
@@ -87,6 +172,14 @@ def link_closure(ctx, cfg, cb, info, role, rule):
     for x in drv.args:
         slices += find_in(x, lambda t: isinstance(t, tuple) and len(t) == 5 and t[0] == "V" and t[1] == "iter" and t[2] == "slice")
     slice_bases = [s[3][1] for s in slices]
+    # index-addressed slots (`base.add(i)` with i yielded by a range): the storage is what the base upvar points to, the driver must run
+    # over exactly the owner's claimed range, and an absolute cursor store must fit the direction of travel
+    ix_ok, ix_det = indexed_traversal(ap, drv, g, info, role, owners)
+    for b_ in ix_ok or ():
+        slice_bases.append(b_)
+    if info.get("indexed") and ix_ok is None:
+        ctx.ob(rule, cb["key"] + "#indexed", REFUTED, ix_det, at=parent["at"], cfg=cfg)
+        return
     if role in ("consumer", "builder"):
         for k in info["positions"]:
             op = g["ops"][k] if k < len(g["ops"]) else None
